@@ -143,7 +143,7 @@ struct HCpca : Harness {
     // PCA of the concatenation through the library (the property's comparator)
     PcaArg pa{&Xc, npc, {}, {}};
     { sim_cfg sc; sim_cfg_default(&sc); sc.detect_races = 0; sc.nproc = 1; sc.step_limit = (tier == "quick") ? 100000000ULL : 1000000000ULL; sim_begin_run(&sc); int rc = sim_guard(call_pca, &pa); sim_end_run(nullptr); if (rc != SIM_OK) { o.counters["skipped.reference_pca_failed"]++; return o; } }
-    NipalsTol tol = nipals_tolerances(ev, npc, n, DOC_PCA_CRITERION);   // accuracy of the comparator PCA, see oracle/nipals_tol.hpp
+    NipalsTol tol = nipals_tolerances(ev, npc, n, DOC_PCA_CRITERION, 10.0, ptot);   // accuracy of the comparator PCA, see oracle/nipals_tol.hpp
     int kmax = tol.kmax;
     if (kmax < npc) o.counters["skipped.components_undecidable"] += npc - kmax;
     for (int k = 0; k < kmax && !o.violation; k++) {
